@@ -160,6 +160,8 @@ func parsePossibility(input *input, relation *Relation) error {
 		Substvar:      false,
 	}
 
+	start := input.Index
+
 	for {
 		peek := input.Peek()
 		switch peek {
@@ -177,6 +179,11 @@ func parsePossibility(input *input, relation *Relation) error {
 			continue
 		case ',', '|', 0: /* I'm out! */
 			if ret.Name == "" {
+				if input.Index != start {
+					/* A qualifier or a restriction stands here, and no
+					 * package name in front of it. */
+					return errors.New("A qualifier or restriction without a package name")
+				}
 				return nil // e.g. trailing comma in Build-Depends
 			}
 			relation.Possibilities = append(relation.Possibilities, *ret)
